@@ -751,7 +751,7 @@ impl quic::SendStream<Bytes> for SimSend {
                 match self.write_some(cx, &mut data) {
                     Poll::Ready(Ok(_)) => {}
                     Poll::Ready(Err(e)) => {
-                        self.writing = Some(data);
+                        // like h3-quinn (since the D21 repair): the buffer of a failed write is dropped
                         return Poll::Ready(Err(e));
                     }
                     Poll::Pending => {
